@@ -113,6 +113,11 @@ __start__:
                 reset();
                 goto __force_restart__;
             }
+            else if (sline_empty(&line))
+            {
+                // start == stop и строка пуста: повторный стартовый символ.
+                goto __continue__;
+            }
         }
         
         if (c == ctx.GSTUFF_STOP) 
